@@ -26,6 +26,7 @@ def mc_configs(tier):
         ("2x4_M_nonsq", 2, 4, [0, 2, 4, 6], [3, 0], "M", 4, True),
         ("4x3_E_nonsq", 4, 3, [0, 3, 6], [4, 3, 2, 1], "E", None, True),
         ("3x3_M_intmax", 3, 3, [0, 1, 2], [0, 1, 2], "M", ("int", 2), True),
+        ("3x3_E_zeromax", 3, 3, [0, 1, 2], [2, 1, 0], "E", ("int", 0), True),
     ]
     t = q + [
         ("3x5_E", 3, 5, [0, 1, 2, 3, 4], [2, 1, 0], "E", None, True),
@@ -47,7 +48,7 @@ def bounds(metric, k):
     if k is None:
         return None, -1, -1
     if isinstance(k, (tuple, list)):
-        m = k[1]
+        m = k[1]           # m = 0 (max_distance == 0.0, exact for both metrics): only target cells are within reach
         return float(m), 2 * m * m, m * m
     if metric == "E":
         return math.sqrt(k + 0.25), 2 * k + 1, k
@@ -95,10 +96,15 @@ def random_jobs(rng, n, sizes, events=True):
         H, W = rng.choice(sizes)
         metric = rng.choice(["E", "E", "M", "T"])
         if metric == "T":
-            x0 = rng.randrange(-170, 150)
-            xs = [x0 + 3 * c for c in range(W)]
-            y0 = rng.randrange(-80, 60)
-            ys = [y0 + 2 * r for r in range(H)]
+            if rng.random() < 0.4:
+                # world-wide raster: on the sphere the opposite corners are NOT the farthest pair of cells
+                xs = [-160 + (320 // max(1, W - 1)) * c for c in range(W)]
+                ys = [80 - (160 // max(1, H - 1)) * r for r in range(H)]
+            else:
+                x0 = rng.randrange(-170, 150)
+                xs = [x0 + 3 * c for c in range(W)]
+                y0 = rng.randrange(-80, 60)
+                ys = [y0 + 2 * r for r in range(H)]
             if rng.random() < 0.5:
                 ys = ys[::-1]
         else:
@@ -138,7 +144,9 @@ def random_jobs(rng, n, sizes, events=True):
         else:
             k = rng.choice([None, None, 1, 2, 4, 7, 12])
             if metric == "M" and rng.random() < 0.4:
-                k = ("int", rng.choice([1, 2, 3, 5]))
+                k = ("int", rng.choice([0, 1, 2, 3, 5]))
+            elif metric == "E" and rng.random() < 0.1:
+                k = ("int", 0)
             mx, b2, mn = bounds(metric, k)
         nt = sum(map(sum, mask))
         jobs.append({"H": H, "W": W, "vals": vals, "xs": xs, "ys": ys, "metric": metric, "max": mx,
